@@ -88,6 +88,8 @@ def _shards(tier):
     out = []
     for t in TEMPLATES:
         nn = min(TICKS[t], 14) if tier == "quick" else TICKS[t]
+        if t in ("watch_in_alarm", "uod_in_alarm", "alarm_block"):
+            nn = max(nn, 22)           # long enough for the Alarm body to be invoked again while its first invocation's children still run
         sh = {"template": t, "n": nn}
         if "In1" in TEMPLATES[t]:
             sh["in1"] = [4, 99] if tier == "quick" else None
